@@ -14,6 +14,8 @@ RULES = {
     "R3": "every predict reshapes its result to np.broadcast(*coordinates[:2]).shape (SciPy gridders hand (E, N) to the interpolator, which broadcasts)",
     "R4": "no accumulator or design matrix takes its dtype from a caller's array while receiving values computed from other arrays or float-valued operations",
     "R5": "predict and jacobian of the same class flatten the force coordinates the same way",
+    "R6": "values handed from one step to the next keep their dtype and their order: filter residuals are not narrowed (C06.R4), block reductions come out in the order of the "
+          "sorted block labels their coordinates use (C09.R4, C10.R2)",
 }
 ASSUMPTIONS = ["invariance under permutation of the points, linearity in the data, pandas containers and round-off are relations between pairs of executions of numerical code (declined)"]
 ALLOC = {"numpy.empty", "numpy.zeros", "numpy.ones", "numpy.full", "numpy.empty_like", "numpy.zeros_like", "numpy.ones_like", "numpy.full_like"}
@@ -302,3 +304,10 @@ def check(ctx):
     r3_shape(ctx)
     r4_dtypes(ctx)
     r5_siblings(ctx)
+    from . import c06, c09, c10
+    for mod, fn, src in ((c06, "r4_filter", "R4"), (c10, "r2_uncertainty", "R2"), (c09, "r_block_coordinates", "R4")):
+        ctx.alias = {src: "R6"}
+        try:
+            getattr(mod, fn)(ctx)
+        finally:
+            ctx.alias = {}
